@@ -38,7 +38,7 @@ func Print returns (err)
   props C08 C09 C10 C17
   requires @sink pc.ReporterConfig.Output != nil && !typeis(pc.ReporterConfig.Output, "*bufio.Writer") && !typeis(pc.ReporterConfig.Output, "*encoding/csv.Writer")
   modifies *
-  modifies ghost(cbLen, cbErr, cbNode, cbStop, cbRet, cbLineNo, cbLine, cbHeader, cbElems, cbNElems, scRd, scPos, privLo, evOf, accKey, accP, accN, accH, bufSink, bufSticky, sinkFailed, sinkPend, prLen, prSink, prArg, prArgs, tnodes, tdepth, tmax, tmapOf)
+  modifies ghost(cbLen, cbErr, cbNode, cbStop, cbRet, cbLineNo, cbLine, cbHeader, cbElems, cbNElems, scRd, scPos, privLo, evOf, accKey, accP, accN, accH, bufSink, bufSticky, sinkFailed, sinkPend, prLen, prSink, prArg, prArgs, tnodes, tdepth, tmax, tmapOf, jlen)
   let out := payload(pc.ReporterConfig.Output)
   let rd := payload(logStream)
   let cc := pc.ParserConfig.CommentChar
